@@ -584,4 +584,34 @@ example : ((2 : ℕ) : Int) = padSliceLo (3 : ℕ) (6 : ℕ) ∧ ((2 : ℕ) : In
     simpa using sum_delta (fun _ _ => 1) 3 3 1 1 (by decide) (by decide) 3]
   norm_num
 
+/-! ## members derived from the coordinates -/
+
+/-- `RichData.r` / `.t` are the first / second result of `cart_to_polar(x = self.x, y = self.y)`; the polar cache of `Slices`
+(azimuthal statistics) is `uniform_cart_to_polar(x = self._x, y = self._y, data = self._source)`; `exact_x` / `exact_y`
+interpolate the (coordinates, values) pair of the x / y slice; `exact_xy` builds and queries its interpolator in
+(y, x) = (row, column) order (argument bindings read off the calls, keyword or positional) -/
+theorem gen_structure_derived :
+    richPolarBinds = true ∧ slicesPolarBinds = true ∧ exact1dBinds = true ∧ exact2dBinds = true := by
+  decide
+
+/-- user-assigned coordinates: when the coordinate vector is `(k − c0)·dx` for ANY in-range `c0` (not only `len // 2`) and
+`dx ≠ 0`, every argmin meeting its specification is `c0` — `Slices` follows the zero of the coordinates it is given -/
+theorem slices_follow_user_origin (am : (Int → Rat) → Int → Int) (ham : IsArgminAbs am) (len c0 : Int)
+    (h0 : 0 ≤ c0) (h1 : c0 < len) (dx : Rat) (hdx : dx ≠ 0) (v : Int → Rat)
+    (hv : ∀ k, v k = ((k - c0 : Int) : Rat) * dx) : am v len = c0 := by
+  obtain ⟨a0, a1, hmin⟩ := ham v len (by omega)
+  have h := hmin c0 h0 h1
+  rw [hv c0, hv (am v len)] at h
+  simp only [sub_self, Int.cast_zero, zero_mul, abs_zero] at h
+  have hz : ((am v len - c0 : Int) : Rat) * dx = 0 := abs_nonpos_iff.1 h
+  rcases mul_eq_zero.1 hz with h | h
+  · have : am v len - c0 = 0 := by exact_mod_cast h
+    omega
+  · exact absurd h hdx
+
+/-- the hypotheses of `slices_follow_user_origin` are satisfiable (an argmin exists; `c0 = 2`, `len = 5`, `dx = 1/2`) -/
+example : ∃ am, IsArgminAbs am ∧ (0 : Int) ≤ 2 ∧ (2 : Int) < 5 ∧ ((1 : Rat) / 2) ≠ 0 := by
+  obtain ⟨am, h⟩ := isArgminAbs_exists
+  exact ⟨am, h, by decide, by decide, by norm_num⟩
+
 end C04
